@@ -34,6 +34,10 @@ class IntegerData(NumericData):
         if np.any(np.modf(values)[0] != 0):
             raise TypeError("Values cannot have decimal points.")
 
+        limits = np.iinfo(np.int32)
+        if np.any((values < limits.min) | (values > limits.max)):
+            raise ValueError("Values outside of the 32-bit integer range.")
+
         return values.astype(np.int32)
 
     @classmethod
